@@ -198,6 +198,9 @@ func c18BuildPool(ctx *Ctx, t *tape.Tape) *c18Pool {
 			desc += " + " + f.String()
 			intact = false
 		}
+		// callers' slices may have spare capacity: the backing array beyond len
+		// is theirs too, and is watched like the rest
+		b = append(make([]byte, 0, len(b)+4+t.Intn(8)), b...)
 		p.files = append(p.files, b)
 		p.fileDesc = append(p.fileDesc, desc)
 		p.intact = append(p.intact, intact && fromCorpus)
@@ -219,7 +222,7 @@ func c18BuildPool(ctx *Ctx, t *tape.Tape) *c18Pool {
 	}
 	for i := 0; i < 2; i++ {
 		n := 1 + t.Intn(5)
-		st := make([]render.Stop, n)
+		st := make([]render.Stop, n, n+2)
 		for j := range st {
 			// offsets in document order: mostly increasing, sometimes not
 			st[j].Offset = float64(t.Intn(65)) / 64
@@ -230,6 +233,13 @@ func c18BuildPool(ctx *Ctx, t *tape.Tape) *c18Pool {
 			st[j].RGBA64 = color.RGBA64{uint16(t.Intn(int(a) + 1)), uint16(t.Intn(int(a) + 1)), uint16(t.Intn(int(a) + 1)), a}
 		}
 		p.rstops = append(p.rstops, st)
+	}
+	for _, pr := range append(append([][]world.Op(nil), p.progs...), p.firstUse...) {
+		for i := range pr {
+			if n := len(pr[i].Stops); n > 0 {
+				pr[i].Stops = append(make([]generate.GradientStop, 0, n+2), pr[i].Stops...)
+			}
+		}
 	}
 	p.cregs = world.GenPalette(t)
 	p.cregs[t.Intn(64)] = color.RGBA{uint8(t.Intn(256)), uint8(t.Intn(256)), uint8(t.Intn(256)), 0}
@@ -258,7 +268,7 @@ func c18BuildPool(ctx *Ctx, t *tape.Tape) *c18Pool {
 func (p *c18Pool) hash() uint64 {
 	h := uint64(14695981039346656037)
 	for _, f := range p.files {
-		h = fnvAdd(h, fnv(f))
+		h = fnvAdd(h, fnv(f[:cap(f)]))
 	}
 	for _, pal := range p.pals {
 		for _, c := range pal {
@@ -282,7 +292,7 @@ func (p *c18Pool) hash() uint64 {
 		}
 	}
 	for _, st := range p.rstops {
-		for _, x := range st {
+		for _, x := range st[:cap(st)] {
 			h = fnvAdd(h, math.Float64bits(x.Offset))
 			h = fnvAdd(h, uint64(x.RGBA64.R)|uint64(x.RGBA64.G)<<16|uint64(x.RGBA64.B)<<32|uint64(x.RGBA64.A)<<48)
 		}
@@ -295,7 +305,7 @@ func (p *c18Pool) hash() uint64 {
 					h = fnvAdd(h, uint64(c.R)|uint64(c.G)<<8|uint64(c.B)<<16|uint64(c.A)<<24)
 				}
 			}
-			for _, s := range pr[i].Stops {
+			for _, s := range pr[i].Stops[:cap(pr[i].Stops)] {
 				h = fnvAdd(h, uint64(float32bits(s.Offset)))
 				// dynamic type and value: a conversion stored back into the
 				// caller's slice changes the type even where the colour is the same
